@@ -20,7 +20,7 @@ func init() {
 		Level: "exploration",
 		Rule: "seeded (selector, data) pairs: segment sequences of length 1..6 over {identity, .field, [\"quoted field\"] (incl. the empty name and names containing . [ ] space), index, slice, iterator} x {optional, not}; index/slice bounds from {0,+-1,+-2,+-len,+-(len+1),+-(2^53-1),absent}, reversed and empty ranges; data of every IPLD kind (maps with the selected keys present/absent, lists, byte strings, strings with multi-byte characters, scalars, null), segments chosen half of the time to fit the value reached so far. Plus the exhaustive kind x segment matrix (19 catalogue values incl. every empty collection x 40 segment shapes x 6 continuations, at the root and one level down) and the exhaustive slice table: lengths 0..6 x (start,end) in {-8..8,absent}^2 on lists, bytes and strings. " +
 			"Oracles: (i) Select == reference interpreter wherever the property pins the result (value deep-equal / no-value / error); (ii) model-free split compositionality: for every split prefix|suffix whose prefix selects v, Select(full,d) == Select(suffix,v), and a failing prefix makes the full selector fail. " +
-			"non-trivial = >=2 segments or a slice/negative index; distinct = (selector text, data).",
+			"(iii) reuse: one parsed Selector resolved against a series of lists / byte strings / strings of different lengths (forwards, then backwards) yields each time what a freshly parsed one yields. non-trivial = >=2 segments or a slice/negative index; distinct = (selector text, data).",
 		Assumptions: []string{
 			"reference interpreter ref.Select (90 lines, from the property text; Python slice semantics), self-tested against vectors of the repository's selector tests",
 			"not judged (left open by the property): a failing optional slice/iterator (also on 'no value'); after an optional field/index yielded 'no value' the remaining segments are resolved against it: identity keeps it, non-optional segments fail, optional field/index keep it",
@@ -31,7 +31,7 @@ func init() {
 		MinEvals:    floor(100000, 3000000),
 		MinDistinct: floor(20000, 500000),
 		RequiredCells: func(string) []string {
-			cells := []string{"matrix/kind-x-segment", "slice-table/list", "slice-table/bytes", "slice-table/string", "split/prefix-value", "split/prefix-error", "model/value", "model/no-value", "model/error", "model/unspecified", "field/empty-name", "iter/map-then-more", "iter/list-then-more"}
+			cells := []string{"reuse", "reuse/slice-or-negative", "matrix/kind-x-segment", "slice-table/list", "slice-table/bytes", "slice-table/string", "split/prefix-value", "split/prefix-error", "model/value", "model/no-value", "model/error", "model/unspecified", "field/empty-name", "iter/map-then-more", "iter/list-then-more"}
 			for _, k := range []string{"identity", "field", "index", "slice", "iter"} {
 				for _, d := range []string{"map", "list", "bytes", "string", "int", "null"} {
 					cells = append(cells, "seg/"+k+"/on="+d)
@@ -413,6 +413,7 @@ func failShape(s ref.Sel, d ref.V) string {
 }
 
 func runC12(w *mon.W) {
+	c12Reuse(w)
 	r := w.Rng
 	// exhaustive slice table
 	idx := 0
@@ -507,5 +508,133 @@ func runC12(w *mon.W) {
 			s = ref.Sel{{Kind: ref.SIdentity, Opt: true}}
 		}
 		c12Case(w, s, d)
+	}
+}
+
+// c12Reuse: a parsed selector is a value that callers keep (every policy statement holds
+// one): the SAME Selector object resolved against a series of values of different lengths
+// and kinds, forwards and then backwards, must give each time what a freshly parsed selector
+// gives for that value. Model-free.
+func c12Reuse(w *mon.W) {
+	r := w.Rng
+	total := w.Share(w.Pick(3000, 60000))
+	for it := 0; it < total; it++ {
+		// a family of collection values of one kind and several lengths, wrapped the same way
+		kind := r.IntN(3)
+		mk := func(n int) ref.V {
+			switch kind {
+			case 0:
+				l := ref.V{K: ref.KList, L: []ref.V{}}
+				for i := 0; i < n; i++ {
+					l.L = append(l.L, ref.Int(int64(i)))
+				}
+				return l
+			case 1:
+				b := make([]byte, n)
+				for i := range b {
+					b[i] = byte(i + 1)
+				}
+				return ref.Bytes(b)
+			default:
+				rs := []rune("aé日bcß漢字xyzüö")
+				s := ""
+				for i := 0; i < n; i++ {
+					s += string(rs[i%len(rs)])
+				}
+				return ref.Str(s)
+			}
+		}
+		lens := []int{r.IntN(8), r.IntN(8), r.IntN(3), 5 + r.IntN(40), 0, 1}
+		r.Shuffle(len(lens), func(i, j int) { lens[i], lens[j] = lens[j], lens[i] })
+		wrap := r.IntN(2) == 0
+		var datas []ref.V
+		for _, n := range lens {
+			v := mk(n)
+			if wrap {
+				v = ref.Map(ref.E("xs", v), ref.E("other", c12Data(r, 1)))
+			}
+			datas = append(datas, v)
+		}
+		if r.IntN(4) == 0 {
+			datas = append(datas, c12Data(r, 2))
+		}
+		var s ref.Sel
+		if wrap {
+			s = append(s, ref.Seg{Kind: ref.SField, Name: "xs"})
+		}
+		nseg := 1 + r.IntN(2)
+		for k := 0; k < nseg; k++ {
+			g := c12Seg(r, mk(lens[0]), true)
+			for g.Kind == ref.SIdentity {
+				g = c12Seg(r, mk(lens[0]), true) // (".." is not in the grammar)
+			}
+			if k == 0 && r.IntN(3) > 0 {
+				// explicit negative / open bounds are what a write-back would spoil
+				lo, hi := ref.I64(-int64(1+r.IntN(4))), ref.I64(-int64(r.IntN(3)))
+				switch r.IntN(4) {
+				case 0:
+					hi = nil
+				case 1:
+					lo = nil
+				case 2:
+					*hi = int64(1 + r.IntN(6))
+				}
+				if lo == nil && hi == nil {
+					hi = ref.I64(-1)
+				}
+				g = ref.Seg{Kind: ref.SSlice, Lo: lo, Hi: hi, Opt: r.IntN(5) == 0}
+				if kind != 2 && r.IntN(4) == 0 {
+					g = ref.Seg{Kind: ref.SIndex, Idx: -int64(1 + r.IntN(4)), Opt: r.IntN(3) == 0}
+				}
+			}
+			s = append(s, g)
+		}
+		text := s.Text()
+		shared, err := selector.Parse(text)
+		if err != nil {
+			w.Violate("parse/well-formed-rejected/reuse", fmt.Sprintf("well-formed selector %q rejected: %v", text, err), map[string]any{"selector": text})
+			continue
+		}
+		order := make([]int, 0, 2*len(datas))
+		for i := range datas {
+			order = append(order, i)
+		}
+		for i := len(datas) - 1; i >= 0; i-- {
+			order = append(order, i)
+		}
+		var history []string
+		for _, di := range order {
+			d := datas[di]
+			fresh, err := c12Select(text, d.Node())
+			if err != nil {
+				break
+			}
+			var got selRes
+			n, serr := shared.Select(d.Node())
+			w.Eval(2)
+			switch {
+			case serr != nil:
+				got = selRes{class: ref.OError, err: serr.Error()}
+			case n == nil:
+				got = selRes{class: ref.ONoValue}
+			default:
+				v, cerr := ref.FromNode(n)
+				if cerr != nil {
+					break
+				}
+				got = selRes{class: ref.OValue, val: v}
+			}
+			history = append(history, fmt.Sprintf("%s -> %s", mon.Trunc(d.String(), 80), got))
+			w.Cover("reuse")
+			if hasSliceOrNeg(s) {
+				w.Cover("reuse/slice-or-negative")
+			}
+			w.Distinct("reuse", text, d.String(), len(history))
+			if !got.same(fresh) {
+				w.Violate("reuse/result-depends-on-earlier-resolutions/"+segShape(s), fmt.Sprintf("selector %q parsed once and resolved against a series of values: on %s it yields %s, a freshly parsed selector yields %s", text, mon.Trunc(d.String(), 120), got, fresh),
+					map[string]any{"selector": text, "history_on_the_shared_selector": history, "fresh_result": fresh.String()})
+				break
+			}
+		}
 	}
 }
